@@ -336,6 +336,11 @@ type loopScenario struct {
 	// RecreateReceiver: after the first round the receiving actor on B is terminated by its own system and a new actor is
 	// spawned under the same name; a second round follows (the link stayed up all the time)
 	RecreateReceiver bool `json:"recreate_receiver,omitempty"`
+	// RootSender: one more sender that is no actor: the harness uses the ActorSystem handle itself (Tell and Ask of the
+	// root context) from one goroutine; Asks are not awaited one by one (a burst of requests in flight)
+	RootSender bool `json:"root_sender,omitempty"`
+	// SizeSeq: payload sizes are taken from Sizes in order (k-th message: Sizes[k mod len]) instead of at random
+	SizeSeq bool `json:"size_seq,omitempty"`
 }
 
 func startRemotingSystem() (*actor.System, string, error) {
@@ -378,6 +383,9 @@ func runLoopback(sc *loopScenario, seed int64) ([]map[string]any, error) {
 					if i := strings.Index(src, "/@future@"); i >= 0 {
 						src = src[:i]
 					}
+					if src == "" {
+						src = "/" // a future of the root context
+					}
 				}
 				rec.ev(map[string]any{"e": "Recv", "src": src, "dst": name, "m": int(m.ID), "v": b2i(m.intact())})
 				rec.count.Add(1)
@@ -417,6 +425,9 @@ func runLoopback(sc *loopScenario, seed int64) ([]map[string]any, error) {
 		for k := 0; k < sc.PerSender; k++ {
 			id := idc.Add(1)
 			size := sc.Sizes[rng.Intn(len(sc.Sizes))]
+			if sc.SizeSeq {
+				size = sc.Sizes[k%len(sc.Sizes)]
+			}
 			if sc.AskEvery > 0 && k%sc.AskEvery == sc.AskEvery-1 {
 				m := newRmsg(id, "ask", size, rng)
 				rec.ev(map[string]any{"e": "Sent", "src": "/" + name, "dst": dst, "m": int(id), "k": "ask"})
@@ -435,7 +446,48 @@ func runLoopback(sc *loopScenario, seed int64) ([]map[string]any, error) {
 			}
 		}
 	}
+	// the root context as a sender: bursts of Tells, Asks that are not awaited one by one, in one goroutine
+	rootBurst := func(sys *actor.System, target vivid.ActorRef, dst string, rng *rand.Rand) {
+		defer wg.Done()
+		type pend struct {
+			id uint32
+			m  *rmsg
+			f  vivid.Future[vivid.Message]
+		}
+		var asks []pend
+		for k := 0; k < sc.PerSender; k++ {
+			id := idc.Add(1)
+			size := sc.Sizes[rng.Intn(len(sc.Sizes))]
+			if rng.Intn(3) == 0 {
+				m := newRmsg(id, "ask", size, rng)
+				rec.ev(map[string]any{"e": "Sent", "src": "/", "dst": dst, "m": int(id), "k": "ask"})
+				expected.Add(1)
+				asks = append(asks, pend{id, m, sys.Ask(target, m, 8*time.Second)})
+			} else {
+				m := newRmsg(id, "tell", size, rng)
+				rec.ev(map[string]any{"e": "Sent", "src": "/", "dst": dst, "m": int(id), "k": "tell"})
+				expected.Add(1)
+				sys.Tell(target, m)
+			}
+		}
+		for _, p := range asks {
+			reply, err := p.f.Result()
+			ok := false
+			if r, isR := reply.(*rmsg); err == nil && isR {
+				ok = r.ID == p.id && r.Kind == "reply" && r.intact() && bytes.Equal(r.Payload, p.m.Payload)
+			}
+			rec.ev(map[string]any{"e": "Replied", "m": int(p.id), "v": b2i(ok)})
+		}
+	}
 	round := func(base int64) {
+		if sc.RootSender {
+			wg.Add(1)
+			go rootBurst(a, toB, "/recvB", rand.New(rand.NewSource(seed+7777+base*1000)))
+			if sc.BothWays {
+				wg.Add(1)
+				go rootBurst(b, toA, "/recvA", rand.New(rand.NewSource(seed+8888+base*1000)))
+			}
+		}
 		for s := 1; s <= sc.Senders; s++ {
 			wg.Add(1)
 			go burst(a, toB, "/recvB", s+int(base)*100, rand.New(rand.NewSource(seed+int64(s)+base*1000)))
@@ -621,6 +673,13 @@ func checkC11(c *core.Ctx) {
 			if sc.PerSender > 40 {
 				sc.PerSender = 40
 			}
+		}
+		if i%3 == 2 {
+			sc.RootSender = true
+		}
+		if i == 3 {
+			// growing large payloads from one sender, the last one just under the frame limit
+			sc = &loopScenario{Senders: 1, PerSender: 5, Sizes: []int{1 << 20, 2 << 20, 5 << 19, 3 << 20, 4<<20 - 512}, SizeSeq: true}
 		}
 		if i == 0 {
 			// one scenario keeps its connections open and idle for a while before using them again
